@@ -63,10 +63,18 @@ static LAST_PANIC: Mutex<String> = Mutex::new(String::new());
 // node to asynchronous persistence (`persist_mode`): then a write is reported InProgress and stays in
 // flight until the script reports it complete (`complete`: ChainMonitor::channel_monitor_updated).
 
+/// asynchronous persistence: which of the node's next writes are reported InProgress
+#[derive(Clone, PartialEq)]
+enum Async {
+	Off,
+	All,
+	/// only the writes of these channels
+	Only(Vec<ChannelId>),
+}
+
 struct CountPersister {
 	updates: AtomicU64,
-	/// asynchronous persistence: the next writes are reported InProgress
-	in_progress: Mutex<bool>,
+	in_progress: Mutex<Async>,
 	/// writes in flight (channel, update id), oldest first
 	pending: Mutex<Vec<(ChannelId, u64)>>,
 	/// writes reported InProgress that the engine has not logged yet
@@ -75,13 +83,14 @@ struct CountPersister {
 
 impl CountPersister {
 	fn new() -> Self {
-		CountPersister { updates: AtomicU64::new(0), in_progress: Mutex::new(false), pending: Mutex::new(Vec::new()), fresh: Mutex::new(Vec::new()) }
+		CountPersister { updates: AtomicU64::new(0), in_progress: Mutex::new(Async::Off), pending: Mutex::new(Vec::new()), fresh: Mutex::new(Vec::new()) }
 	}
 	fn status(&self, m: &ChannelMonitor<TestChannelSigner>) -> ChannelMonitorUpdateStatus {
 		let c = m.channel_id();
 		// the documented contract: while a write of a channel is in flight no later write of that channel is
 		// reported Completed
-		let inprog = *self.in_progress.lock().unwrap() || self.pending.lock().unwrap().iter().any(|p| p.0 == c);
+		let mode = match &*self.in_progress.lock().unwrap() { Async::Off => false, Async::All => true, Async::Only(v) => v.contains(&c) };
+		let inprog = mode || self.pending.lock().unwrap().iter().any(|p| p.0 == c);
 		if inprog {
 			let id = m.get_latest_update_id();
 			// (a write of the whole monitor after a block repeats the latest update id: ChainMonitor keeps one entry)
@@ -387,7 +396,7 @@ impl Net {
 	fn complete_everything(&mut self) -> bool {
 		let mut any = false;
 		for i in 0..self.nodes.len() {
-			*self.persisters[i].in_progress.lock().unwrap() = false;
+			*self.persisters[i].in_progress.lock().unwrap() = Async::Off;
 			if self.complete_writes(i, "all", None) { any = true; }
 		}
 		any
@@ -648,7 +657,18 @@ impl Net {
 			Event::PaymentFailed { payment_id, payment_hash, reason } => {
 				let h = payment_hash.map(|p| self.hash(&p.0)).unwrap_or(0);
 				let r: String = format!("{:?}", reason).chars().filter(|c| c.is_alphanumeric()).collect();
-				self.ev(json!({"ev":"event","node":i,"kind":"PaymentFailed","pid":pid_index(&payment_id),"hash":h,"reason":r}));
+				// what the node's own channels list at this moment (ChannelDetails::pending_outbound_htlcs): HTLCs of
+				// that payment hash the node still offers or is about to offer (`cell`: without an id yet, i.e. waiting
+				// in a holding cell)
+				let (mut pend, mut cell) = (0, 0);
+				if let Some(ph) = payment_hash {
+					for cd in self.nodes[i].node.list_channels() {
+						for o in cd.pending_outbound_htlcs.iter() {
+							if o.payment_hash == ph { pend += 1; if o.htlc_id.is_none() { cell += 1; } }
+						}
+					}
+				}
+				self.ev(json!({"ev":"event","node":i,"kind":"PaymentFailed","pid":pid_index(&payment_id),"hash":h,"reason":r,"pend":pend,"cell":cell}));
 			},
 			Event::PaymentPathFailed { payment_id, payment_hash, payment_failed_permanently, short_channel_id, path, failure, .. } => {
 				let h = self.hash(&payment_hash.0);
@@ -920,8 +940,24 @@ impl Net {
 			return true;
 		}
 		let paths = match op["paths"].as_array() { Some(p) if !p.is_empty() => p.clone(), _ => return false };
-		let amts: Vec<u64> = op["amts"].as_array().map(|a| a.iter().map(|x| x.as_u64().unwrap_or(0)).collect()).unwrap_or_default();
+		let mut amts: Vec<u64> = op["amts"].as_array().map(|a| a.iter().map(|x| x.as_u64().unwrap_or(0)).collect()).unwrap_or_default();
 		if amts.len() != paths.len() { return false; }
+		// {"limit": d}: what the first-hop channel reports as the most it can send now (next_outbound_htlc_limit_msat),
+		// plus d, less the forwarding fees of the path
+		if let Some(a) = op["amts"].as_array() {
+			for (k, x) in a.iter().enumerate() {
+				if let Some(d) = x["limit"].as_i64() {
+					let first = paths[k].as_array().and_then(|p| p.first()).and_then(|c| c.as_u64()).unwrap_or(0) as usize;
+					if first == 0 || first > self.chans.len() { return false; }
+					let cid = self.chans[first - 1].cid;
+					let lim = match self.nodes[from].node.list_channels().iter().find(|c| c.channel_id == cid) { Some(c) => c.next_outbound_htlc_limit_msat as i64, None => return false };
+					let hops = paths[k].as_array().map(|p| p.len()).unwrap_or(1) as i64;
+					let v = lim + d - 1000 * (hops - 1);
+					if v < 1000 { return false; }
+					amts[k] = v as u64;
+				}
+			}
+		}
 		let cltvs: Vec<u32> = match op["cltv"].as_array() {
 			Some(a) => a.iter().map(|x| x.as_u64().unwrap_or(70) as u32).collect(),
 			None => vec![op["cltv"].as_u64().unwrap_or(70) as u32; paths.len()],
@@ -1078,7 +1114,7 @@ impl Net {
 		if self.mined_any { return false; }
 		// (a crash while a monitor write is in flight leaves a monitor that is behind the manager: not driven)
 		if !self.persisters[i].pending.lock().unwrap().is_empty() { return false; }
-		let was_async = std::mem::replace(&mut *self.persisters[i].in_progress.lock().unwrap(), false);
+		let was_async = std::mem::replace(&mut *self.persisters[i].in_progress.lock().unwrap(), Async::Off);
 		// the process dies: its connections and everything queued on them are gone
 		for j in 0..self.nodes.len() {
 			if j != i && *self.connected.get(&Self::key(i, j)).unwrap_or(&false) {
@@ -1305,8 +1341,39 @@ impl Net {
 			"persist_mode" => {
 				if node < n {
 					let inprog = op["mode"].as_str() == Some("inprogress");
-					*self.persisters[node].in_progress.lock().unwrap() = inprog;
-					self.ev(json!({"ev":"persist_mode","node":node,"inprogress":inprog}));
+					// `chans`: only the writes of these channels are reported InProgress
+					let only: Option<Vec<usize>> = op["chans"].as_array().map(|a| a.iter().filter_map(|c| c.as_u64()).map(|c| c as usize).filter(|c| *c >= 1 && *c <= self.chans.len()).collect());
+					*self.persisters[node].in_progress.lock().unwrap() = match (inprog, &only) {
+						(false, _) => Async::Off,
+						(true, None) => Async::All,
+						(true, Some(v)) => Async::Only(v.iter().map(|c| self.chans[*c - 1].cid).collect()),
+					};
+					self.ev(json!({"ev":"persist_mode","node":node,"inprogress":inprog,"chans":only.unwrap_or_default()}));
+					true
+				} else { false }
+			},
+			"config" => {
+				// the node's user changes the configuration of one of its channels: the dust-exposure limit
+				let c = op["chan"].as_u64().unwrap_or(0) as usize;
+				if node < n && c >= 1 && c <= self.chans.len() && (self.chans[c - 1].a == node || self.chans[c - 1].b == node) {
+					let peer = if self.chans[c - 1].a == node { self.chans[c - 1].b } else { self.chans[c - 1].a };
+					let md = match op["max_dust"].as_u64() {
+						Some(v) => lightning::util::config::MaxDustHTLCExposure::FixedLimitMsat(v),
+						None => lightning::util::config::MaxDustHTLCExposure::FeeRateMultiplier(op["max_dust_mult"].as_u64().unwrap_or(10_000)),
+					};
+					let upd = lightning::util::config::ChannelConfigUpdate { max_dust_htlc_exposure_msat: Some(md), ..Default::default() };
+					let res = self.nodes[node].node.update_partial_channel_config(&self.nodes[peer].node.get_our_node_id(), &[self.chans[c - 1].cid], &upd);
+					self.ev(json!({"ev":"config","node":node,"chan":c,"max_dust":op["max_dust"].as_i64().unwrap_or(-1),"ok":res.is_ok()}));
+					self.drain();
+					true
+				} else { false }
+			},
+			"feerate" => {
+				// the node's fee estimator answers another feerate from now on
+				if node < n {
+					let f = op["sat_per_kw"].as_u64().unwrap_or(253) as u32;
+					*self.nodes[node].fee_estimator.sat_per_kw.lock().unwrap() = f;
+					self.ev(json!({"ev":"config","node":node,"chan":0,"max_dust":-1,"ok":true,"feerate":f}));
 					true
 				} else { false }
 			},
